@@ -4,10 +4,10 @@
 package main
 
 import (
-	"go/parser"
-	"go/ast"
 	"encoding/json"
 	"fmt"
+	"go/ast"
+	"go/parser"
 	"go/token"
 	"go/types"
 	"os"
